@@ -458,14 +458,15 @@ End Kinds.
    A scalar variable whose total force is the projection of the force on one atom (one-atom group,
    fixed axis), engine with lagged total forces (total_forces_same_step() = false) that include the
    forces Colvars applied.  colvar::calc_cvcs computes ft only when step_relative > 0;
-   colvar::calc_colvar_properties: "if (ft.norm2() > 0.0) ft -= f_old" when subtractAppliedForce is on;
-   colvar::end_of_step: f_old = f.  A history is the list of (system force s_t on the coordinate,
+   colvar::calc_colvar_properties (after the repair "subtractAppliedForce skipped the correction when the
+   measured total force was exactly zero"): "if (cvm::step_relative() > 0) ft -= f_old" when
+   subtractAppliedForce is on; colvar::end_of_step: f_old = f.  [measured] = step_relative > 0.  A history is the list of (system force s_t on the coordinate,
    force f_t applied by Colvars on the variable) per step. *)
 Section TotalForce.
   Context {T : Type} (O : NumOps T).
 
-  Definition tf_report (lagged sub : bool) (ft fold : T) : T :=
-    if sub && lagged then (if nltb O (n0 O) (nmul O ft ft) then nsub O ft fold else ft) else ft.
+  Definition tf_report (lagged sub measured : bool) (ft fold : T) : T :=
+    if sub && lagged then (if measured then nsub O ft fold else ft) else ft.
 
   Definition tf_end (sub : bool) (f fold : T) : T := if sub then f else fold.
 
@@ -477,6 +478,7 @@ Section TotalForce.
     | [] => []
     | (s, f) :: r =>
       let ft := match prev with None => n0 O | Some (sp, fp) => engine_total sp fp end in
-      tf_report lagged sub ft fold :: tf_trace lagged sub (Some (s, f)) (tf_end sub f fold) r
+      let measured := match prev with None => false | Some _ => true end in
+      tf_report lagged sub measured ft fold :: tf_trace lagged sub (Some (s, f)) (tf_end sub f fold) r
     end.
 End TotalForce.
